@@ -187,6 +187,27 @@ class Frame:
         self.loop_ordinal = 0
 
 
+def _is_concrete(a, path=None):
+    if isinstance(a, bool) or a is None or isinstance(a, (int, str, float)):
+        return True
+    if isinstance(a, (list, tuple)):
+        return all(_is_concrete(x, path) for x in a)
+    if isinstance(a, Obj) and a.kind == "pregex" and path is not None:
+        f = path.fields(a)
+        return isinstance(f.get("_Pregex__pattern"), str) and isinstance(f.get("_Pregex__repeatable"), bool)
+    return False
+
+
+def concrete_json(a, path):
+    """JSON form of a concrete argument; a Pregex with constant text travels as that text (its type and flag are
+    what __infer_type gives for it: class invariant)"""
+    if isinstance(a, (list, tuple)):
+        return [concrete_json(x, path) for x in a]
+    if isinstance(a, Obj):
+        return {"__pregex__": path.fields(a)["_Pregex__pattern"]}
+    return a
+
+
 class Engine:
     def __init__(self, index, contracts, spec_builtins, spec_funcs=None):
         self.index = index
@@ -620,7 +641,7 @@ class Engine:
             return a == b
         if isinstance(a, Obj) and isinstance(b, Obj):
             return a.oid == b.oid
-        if isinstance(a, tuple) and isinstance(b, tuple):
+        if (isinstance(a, tuple) and isinstance(b, tuple)) or (isinstance(a, list) and isinstance(b, list)):
             if len(a) != len(b):
                 return False
             r = True
@@ -758,7 +779,14 @@ class Engine:
         if isinstance(base, dict):
             import enum
             if is_sym(idx):
-                raise Limitation("dict lookup with a symbolic key")
+                keys = [k for k in base if isinstance(k, int) and not isinstance(k, bool)]
+                if len(keys) != len(base):
+                    raise Limitation("dict lookup with a symbolic key")
+                opts = [(str(k), zterm(idx) == k) for k in keys] + [("missing", z3.And(*[zterm(idx) != k for k in keys]))]
+                i = path.choose(opts, "dict key")
+                if i == len(keys):
+                    raise RaiseExc("KeyError", implicit=True, info="key not in dict")
+                return base[keys[i]]
             if idx not in base:
                 raise RaiseExc("KeyError", implicit=True, info=f"key {idx!r}")
             return base[idx]
@@ -1067,7 +1095,12 @@ class Engine:
             if c is None and not self.allow_inline_uncontracted(fi):
                 raise Limitation(f"call of {q}, which has no contract")
             return self.call_funcdef(fi.node, None, None, fi.cls, fi.module, fi, path, env=env, qual=q)
+        if c.get("concrete_native") and all(_is_concrete(v, path) for v in env.values()):
+            return self.concrete_call(fi, env, fr, path)
         return self.apply_contract(fi, c, env, fr, path)
+
+    def concrete_call(self, fi, env, fr, path):
+        raise Limitation("concrete call")
 
     def allow_inline_uncontracted(self, fi):
         return False
@@ -1105,9 +1138,64 @@ class Engine:
         return ys if not isinstance(ys, (SymSeq, TermList)) else ys
 
     # -- contract application at a call site ---------------------------------------------------------
+    def note_kind_gaps(self, q, c, env, path):
+        """a callee's contract is verified for the argument kinds its `params` list; an argument of another kind at a
+        call site is used beyond what was verified - recorded and reported as an assumption of the caller"""
+        if c.get("assumed") or not hasattr(self, "kind_gaps"):
+            return
+        for name, kinds in (c.get("params") or {}).items():
+            if name not in env:
+                continue
+            tags = kinds if isinstance(kinds, list) else self.kind_tags.get(kinds)
+            if tags is None:
+                continue
+            tag = self.value_tag(env[name], path)
+            if tag is None:
+                continue
+            if isinstance(tag, tuple):            # *args: a tuple of operand tags
+                if "|".join(tag) not in tags:
+                    self.kind_gaps.add((q, name, "(" + ", ".join(tag) + ")"))
+                continue
+            ok = tag in tags or (tag in ("str0", "str1", "str2") and "str" in tags) or \
+                (tag == "str" and all(t in tags for t in ("str0", "str1", "str2"))) or \
+                (tag.startswith("Group") and ("Group" in tags or tag.split(":")[0] in tags)) or \
+                (tag == "bool" and "bool" not in tags and "dyn" == kinds) or (tag + "+compiled" in tags)
+            if not ok:
+                self.kind_gaps.add((q, name, tag))
+
+    def value_tag(self, v, path):
+        if v is None:
+            return "none"
+        if isinstance(v, bool) or is_boolv(v):
+            return "bool"
+        if is_intv(v):
+            return "int"
+        if is_realv(v):
+            return "float"
+        if isinstance(v, str):
+            return "str0" if len(v) == 0 else "str1" if len(v) == 1 else "str2"
+        if is_strv(v):
+            return "str"
+        if isinstance(v, Other):
+            return "other"
+        if isinstance(v, tuple):
+            ts = [self.value_tag(x, path) for x in v]
+            return tuple(ts) if all(isinstance(t, str) for t in ts) else None
+        if isinstance(v, Obj) and v.kind == "pregex":
+            f = path.fields(v)
+            if "_Pregex__type" not in f:
+                return "new"
+            ty = f["_Pregex__type"]
+            if isinstance(ty, Unknown) or ty is None:
+                return None
+            shape = (getattr(v, "info", None) or {}).get("shape")
+            return f"Group:{shape}" if ty.name == "Group" and shape else ty.name
+        return None
+
     def apply_contract(self, fi, c, env, fr, path):
         from .vc import eval_spec
         q = fi.qualname
+        self.note_kind_gaps(q, c, env, path)
         # precondition: an obligation of the caller
         req = c.get("requires")
         if req:
@@ -1198,6 +1286,13 @@ class Engine:
         if isinstance(a, PyTypeOf):
             return False
         raise Limitation(f"issubclass({a!r}, {b!r})")
+
+    def bi_sorted(self, args, kwargs, fr, path):
+        v = args[0]
+        if isinstance(v, (list, tuple)) and not kwargs and (all(isinstance(x, str) for x in v) or
+                                                           all(isinstance(x, int) and not isinstance(x, bool) for x in v)):
+            return sorted(v)
+        raise Limitation("sorted() of a non-constant sequence")
 
     def bi_len(self, args, kwargs, fr, path):
         (v,) = args
@@ -1417,9 +1512,6 @@ class Engine:
             return [self.call(f, [x], {}, fr, path) for x in seq]
         raise Limitation("map over a symbolic sequence")
 
-    def bi_sorted(self, args, kwargs, fr, path):
-        raise Limitation("sorted()")
-
     # -- methods of built-in values ------------------------------------------------------------------
     def call_value_method(self, recv, name, args, kwargs, fr, path):
         if is_strv(recv):
@@ -1509,9 +1601,24 @@ class Engine:
             env = self.bind_args(init, [None] + list(args), kwargs, fr, path)
             env.pop("self", None)
             return self.apply_contract(FakeFi(f"new:{ci.module.name}.{ci.name}", init), c, env, fr, path)
+        if args and not ci.name.startswith("_") and all(_is_concrete(a, path) for a in list(args) + list(kwargs.values())):
+            # a public constructor applied to constants: the real code is run on them (concrete execution)
+            g = self.concrete_construct(ci, args, kwargs, fr, path)
+            if g is not None:
+                return g
+        if self.contracts.get(init.qualname) is None and not self.contracts.get(getattr(init, "qualname", ""), {}).get("inline"):
+            g = self.generic_construct(ci, args, kwargs, fr, path)
+            if g is not None:
+                return g
         obj = Obj(ci, kind="pregex")
         self.call_function(init, [obj] + list(args), kwargs, fr, path)
         return obj
+
+    def generic_construct(self, ci, args, kwargs, fr, path):
+        return None
+
+    def concrete_construct(self, ci, args, kwargs, fr, path):
+        return None
 
     # =================================================================================================
     # statements
